@@ -34,7 +34,7 @@ LEVEL_TEXT = (
 LEVEL_NOTE = "Bounded: charts of <=5 notes, 2 tempo points, 2 SVs; history depth 2/3. Stale-stacker behaviour is a recorded finding."
 
 GAMES = charts.GAMES
-T_MASK = 100.0  # offset threshold of the masks
+T_MASK = 1000.0  # offset threshold of the masks
 C_MASK = 1
 
 
@@ -133,7 +133,7 @@ def bound(tier, seed):
     return dict(
         plan=[dict(kind=k, game=g, start=v, alphabet=a, depth=d) for k, g, v, a, d in plan(tier)],
         alphabet_sizes=dict(full_osu=len(full_alphabet("osu")), full_other=len(full_alphabet("sm")), core=len(core_alphabet("sm")), mapset=len(set_alphabet())),
-        masks=["offset>100", "column==1", "offset>100 & column==1", "length.notna()", "none", "all"],
+        masks=["offset>1000", "column==1", "offset>1000 & column==1", "length.notna()", "none", "all"],
         reuse="every depth>=2 sequence is run with a fresh stacker per operation and, where both operations use the unrestricted stack, with one stacker reused",
     )
 
